@@ -219,6 +219,9 @@ func genProxy(r *hx.Rand, i int) interface{} {
 	if r.Chance(1, 3) {
 		in.Wire = append(in.Wire, genUpgrade(r)...)
 	}
+	if r.Chance(1, 20) {
+		in.Wire = append(in.Wire, genBlankLines(r, r.Pick(managedNames[:7]), true)...)
+	}
 	if r.Chance(1, 6) {
 		in.Wire = append(in.Wire, genConnection(r, in.Cfg))
 	}
